@@ -22,7 +22,7 @@ def check(run):
                         timeout=3000)
     rc = vlib.cfg(invariants=['Report', 'C02_NeverBelowMinRun'], properties=['C10_BoundedResponseRun', 'C10_ErrorOnlyAtMaxRun', 'C10_MonitorAlive', 'C10_LadderCompletes'],
                   post='TraceAccepted')
-    run.validate('Monitor_Stall', rc, rtraces, 'monstall')
+    run.validate('Monitor_Stall', rc, rtraces, 'monstall', parallel=6, timeout=3000, heap='8g')
     run.cov['run_mode_scenarios'] = ctlfam.count_events(rtraces, lambda ln: '"ev":"Begin"' in ln)
     run.cov['run_mode_stalls_reported'] = ctlfam.count_events(rtraces, lambda ln: '"ev":"CycleEnd"' in ln and '"a":[-1,1,0]' in ln)
     errs = ctlfam.count_events(traces, lambda ln: '"ev":"Cycle"' in ln and '"err":true' in ln)
